@@ -24,6 +24,8 @@ struct Case {
     garbage: u64,
     api: u8, // 0 new_in_place, 1 FlatWrap over &mut [u8], 2 FlatWrap over AlignedBytes copy
     nclass: &'static str,
+    /// the value has more elements than its length type can count: construction must be refused whatever the buffer
+    over: bool,
 }
 
 fn shapes_for<'a>(ctx: &'a Ctx) -> Vec<usize> {
@@ -47,10 +49,20 @@ fn gen_case(ctx: &Ctx, shapes: &[usize], idx: u64) -> Case {
     let a = d.align();
     let budget = if ctx.tier == Tier::Quick { 48 } else { 120 };
     let v = if ctx.prop == "C20" { default_value(d) } else { gen_value(d, &mut rng, budget) };
-    let need = extent_of(d, &v);
-    let style = rng.next();
     let any_buffer = ctx.prop == "C15" || ctx.prop == "C14";
-    let (n, nclass) = if any_buffer {
+    let mut over = false;
+    let mut v = v;
+    if any_buffer && rng.chance(1, 10) {
+        if let Some(v2) = make_overlong(d, &v, &mut rng) {
+            v = v2;
+            over = true;
+        }
+    }
+    let need = if over { overlong_room(d, &v) } else { extent_of(d, &v) };
+    let style = rng.next();
+    let (n, nclass) = if over {
+        (need + rng.range(0, a + 2), "room-for-unrepresentable-content")
+    } else if any_buffer {
         match rng.below(10) {
             0 => (rng.range(0, d.min_size()), "below-min"),
             1 => (d.min_size().saturating_sub(1), "min-1"),
@@ -89,6 +101,7 @@ fn gen_case(ctx: &Ctx, shapes: &[usize], idx: u64) -> Case {
         garbage: rng.next(),
         api: if any_buffer || ctx.prop == "C20" { rng.below(3).min(1) as u8 } else { 0 },
         nclass,
+        over,
     }
 }
 
@@ -166,7 +179,7 @@ pub fn run(ctx: &Ctx, rep: &mut Report) {
                 .set("addr_mod_64", J::i(addr % 64))
                 .set("api", J::i(case.api))
         };
-        let need = extent_of(d, &case.v);
+        let need = if case.over { n } else { extent_of(d, &case.v) };
         let mut rr = Rng::new(case.garbage ^ 0x99);
 
         let before: Vec<u8> = if ctx.prop == "C14" { arena.slice().to_vec() } else { Vec::new() };
@@ -222,8 +235,32 @@ pub fn run(ctx: &Ctx, rep: &mut Report) {
             Ok(Some(r)) => r,
         };
         let aligned = addr % a == 0;
+        if case.over && ctx.prop != "C14" {
+            // more elements than the length type can count: the content cannot be held by any buffer
+            rep.count("zone:unrepresentable-content");
+            rep.key(mix(hash_str(vt.name) ^ mix(hash_str("over")) ^ mix(case.style % 6) ^ mix(aligned as u64)));
+            match &res {
+                Ok(()) => rep.violation(
+                    format!("{}|accepted-unrepresentable-content|{}", ctx.prop, kind_path(d)),
+                    format!("{}: a value with more elements than the length type can count was accepted (read back: {})", vt.name, got_val.as_ref().map(|v| v.short()).unwrap_or_default()),
+                    cj(),
+                ),
+                Err(e) if aligned && e.kind != ErrorKind::InsufficientSize => rep.violation(
+                    format!("{}|unrepresentable-content-wrong-error|{}|{}", ctx.prop, kind_path(d), kind_name(&e.kind)),
+                    format!("{}: content that does not fit the length type answered with {:?}", vt.name, e),
+                    cj(),
+                ),
+                Err(e) if e.kind != ErrorKind::InsufficientSize && e.kind != ErrorKind::BadAlign => rep.violation(
+                    format!("{}|bad-buffer-wrong-error|{}|{}", ctx.prop, kind_path(d), kind_name(&e.kind)),
+                    format!("{}: misaligned buffer and unrepresentable content answered with {:?}", vt.name, e),
+                    cj(),
+                ),
+                Err(e) => rep.count(&format!("outcome:unrepresentable:{}", kind_name(&e.kind))),
+            }
+            return;
+        }
         let fits_usable = floor_to(n, a) >= need;
-        let content_end = if lean { need } else { content_end_of(d, &case.v, &mut rr) };
+        let content_end = if lean || case.over { need } else { content_end_of(d, &case.v, &mut rr) };
         let fits_at_all = n >= content_end.max(min_content(d));
         let zone = if !aligned && !fits_usable {
             "misaligned+small"
